@@ -122,6 +122,15 @@ func caseOptions(r *common.Run, n int) raftsim.Options {
 	case "C03", "C04":
 		o.WCrash, o.WTransfer, o.WPartition = 2, 2, 2
 	}
+	if r.Prop == "C03" || r.Prop == "C07" {
+		// (own PRNG stream: the other cases keep their shape)
+		if cs := r.Rand("ccstep", n); cs.Intn(3) == 0 {
+			o.StepDuringCC = true
+			if o.WConfigChange < 3 {
+				o.WConfigChange = 3
+			}
+		}
+	}
 	return o
 }
 
